@@ -275,10 +275,11 @@ def naming_guards(ctx) -> None:
     for n, test, pol, r in fv.raising_guards():
         if raise_class(fv, r)[0] != "ValueError" or not pol:
             continue
-        rt = fv.res.resolve(test, n.id)
-        facts = fv.rfacts_at(n.id)
-        empty = any(isinstance(x, ast.Compare) and isinstance(x.ops[0], ast.Eq) and p and isinstance(x.comparators[0], ast.Constant) and x.comparators[0].value == 0 and "initial_volumes" in show(x.left) for x, p, raw in facts)
-        named = isinstance(rt, ast.Compare) and isinstance(rt.ops[0], ast.IsNot) and "component_names" in show(rt.left)
+        atoms = fv.atoms_at(fv.node_of(r))
+        empty = any(isinstance(x, ast.Compare) and len(x.ops) == 1 and isinstance(x.ops[0], ast.Eq) and p and isinstance(x.comparators[0], ast.Constant) and x.comparators[0].value == 0
+                    and "initial_volumes" in show(x.left) for x, p, _b in atoms)
+        named = any(isinstance(x, ast.Compare) and len(x.ops) == 1 and isinstance(x.ops[0], ast.Is) and not p and isinstance(x.comparators[0], ast.Constant) and x.comparators[0].value is None
+                    and "component_names" in show(x.left) for x, p, _b in atoms)
         ok_empty = ok_empty or (empty and named)
     ctx.rep.check(ok_empty, rule, f"{f.qualname}/names-for-empty", "a name for an empty well raises ValueError", "a component name given for an empty well is not rejected with ValueError", where=f.where())
     # trough: per-column lengths
